@@ -38,6 +38,28 @@ static bool req(double a, double b)
 static bool req(double a, double b) { return a == b; }
 #endif
 
+#ifdef VF_PROPOSED_FIX
+// NOT used by any registered kernel: the source change proposed for Grid::dilate, to confirm that k_dilate passes on
+// the corrected code (python3-vt vf/kernel_run.py C16.e.2.dilate quick 0 VF_PROPOSED_FIX).  The original calls
+// indicesToCoordinate(_iwork0, _work1), whose second parameter is 'percent': _work1 is at the same time the output
+// and the percent vector, so every index is added to itself before the multiplication by dx (origin moved twice too far).
+void Grid::dilate(int mode, const VectorInt& nshift, VectorInt& nx, VectorDouble& dx, VectorDouble& x0) const
+{
+  if (mode != 1 && mode != -1) return;
+  for (int idim = 0; idim < _nDim; idim++)
+  {
+    nx[idim] = getNX(idim) + 2 * mode * nshift[idim];
+    if (nx[idim] <= 0) return;
+    dx[idim] = getDX(idim);
+  }
+  for (int idim = 0; idim < _nDim; idim++)
+    _iwork0[idim] = -mode * nshift[idim];
+  indicesToCoordinateInPlace(_iwork0, _work1); // was: indicesToCoordinate(_iwork0, _work1);
+  for (int idim = 0; idim < _nDim; idim++)
+    x0[idim] = _work1[idim];
+}
+#endif
+
 // Grid as raw storage: fields read by the three functions and by indicesToCoordinateInPlace
 struct RawGrid
 {
